@@ -219,7 +219,14 @@ def part_prebuffered(spec, res):
 
     def body():
         it.run(p1)  # buffered: no destination exists yet
-        add_destinations(*dests)
+        if spec["i"] % 2:
+            # logging is set up from inside an action (a main() wrapped in one): reports about re-delivered messages are
+            # logged while that action is current
+            res["counters"]["handovers_inside_an_action"] = res["counters"].get("handovers_inside_an_action", 0) + 1
+            with start_action(action_type="c08:setup", nid=999):
+                add_destinations(*dests)
+        else:
+            add_destinations(*dests)
         add_destinations(twins[0])
         add_destinations(twins[1])
         it.forest = []
@@ -394,9 +401,20 @@ def run_case(spec):
                 ename, fac = faults.exc_factory(rng)
                 dspec.insert(rng.randint(0, len(dspec)), ("bad", pred, fac, desc + ":" + ename))
 
-            def body(tape, problems, prog=prog):
+            sinkbound = rng.random() < 0.25
+
+            def body(tape, problems, prog=prog, sinkbound=sinkbound):
                 it = Interp(tape=tape)
-                it.run(prog)
+                it.explicit_loggers = True
+                if sinkbound:
+                    # the program runs inside an action that is bound to a logger object of its own (an in-memory sink): reports
+                    # about failed deliveries of the messages that do go to the destinations still have to reach the destinations
+                    from vf.interp import _Sink
+                    res["counters"]["programs_inside_sink_bound_action"] = res["counters"].get("programs_inside_sink_bound_action", 0) + 1
+                    with start_action(_Sink(), "c08:sinkbound"):
+                        it.run(prog)
+                else:
+                    it.run(prog)
                 problems.extend(v["msg"] for v in it.violations if v["msg"].startswith("eliot API call"))
             tape = run_with(dspec, body, res, "random", gen.prog_shape(prog))
             if res["sample"] is None and nbad and st["nodes"] <= 4:
